@@ -13,20 +13,54 @@
 
     over the datatypes of model/C01_Model.v (molecule graphs, ITS graphs; imported read-only) with
     [its_construct] (C01) and [get_rc] (C02).  The graph canonicaliser (synkit/Graph/canon_graph.py, property
-    C08) is NOT modelled here: its result enters as the relabelling [sigma] it computed (old id -> new id);
-    the contract used by the theorems is "sigma is injective on the nodes of the reactant graph" (C08_faithful).
+    C08) enters through the canonical node ORDER it computes: back-end wl = [sort_by (colour rank, degree, id)]
+    (C08_Model.canon_rank; the WL colours are an oracle input), back-end nauty = [C08_Model.nauty_perm] (the
+    modelled search) on the converted graph [to_c08]; the new id of a node is its 1-based position
+    ([C08_Model.mapping_of]).  The theorems only use "the order enumerates the nodes of the reactant graph
+    without repetition" (proved for both back-ends in C08).
     networkx VF2 (is_isomorphic) is modelled by an exhaustive backtracking search over the verified
     candidate test [ok] of lib/Mono.v. *)
 From Coq Require Import List NArith ZArith Bool.
 From SK Require Import lib.Tok lib.LGraph lib.Mono model.C01_Model model.C02_Model.
+From SK Require model.C08_Model.
 Import ListNotations.
 Local Open Scope Z_scope.
 
+(** * The canonical order of the reactant graph (C08) *)
+
+(** element symbols: C01 interns a symbol as 3 + its bytes read as a base-256 number ("*" -> 0, "" -> 1, "H" -> 2);
+    the C08 model (and the nauty label order) works on the code points *)
+Fixpoint bytes_fuel (f : nat) (n : N) (acc : list N) : list N :=
+  match f with
+  | O => acc
+  | S f' => if N.eqb n 0 then acc else bytes_fuel f' (N.div n 256) (N.modulo n 256 :: acc)
+  end.
+Definition el_str (e : N) : list N :=
+  if N.eqb e EL_STAR then [42%N] else if N.eqb e EL_EMPTY then [] else if N.eqb e EL_H then [72%N]
+  else bytes_fuel 8 (e - 3)%N [].
+Definition to_c08 (G : mgraph) : C08_Model.graph :=
+  LG (map (fun p : N * gnode => (fst p, C08_Model.NA (el_str (g_el (snd p))) (g_arom (snd p)) (g_ch (snd p)) (g_hc (snd p))
+                                                    (Some (g_amap (snd p))))) (gnodes G))
+     (map (fun e : N * N * Z => let '(u, v, o) := e in (u, v, C08_Model.EA o None)) (gedges G)).
+
+(** _canon_wl: sorted(g, key = (colour, degree, id)) *)
+Definition wl_order (ranks : list (N * Z)) (G : mgraph) : list N :=
+  let g := to_c08 G in
+  C08_Model.sort_by (fun v => [C08_Model.rank_of ranks v; C08_Model.degree g v; Z.of_N v]) (node_ids g).
+(** NautyCanonicalizer: the best leaf of the search *)
+Definition nauty_order (G : mgraph) : list N := C08_Model.nauty_perm (to_c08 G).
+(** mapping = {old: i + 1 for i, old in enumerate(order)} *)
+Definition sigma_of (order : list N) : N -> N := C08_Model.apply_map (C08_Model.mapping_of order).
+
 (** * CanonRSMI.canonicalise, graph level *)
 
-(** the canonical graph of [G]: a relabelled copy (all attributes, in particular atom_map, kept) *)
+(** the canonical graph of [G]: a relabelled copy (all attributes, in particular atom_map, kept).
+    wl rebuilds the graph with the nodes inserted in canonical order; nauty calls nx.relabel_nodes (input order kept) *)
 Definition apply_map (m : list (N * N)) (n : N) : N := match assoc n m with Some x => x | None => n end.
-Definition canon_graph (sigma : list (N * N)) (G : mgraph) : mgraph := relabel (apply_map sigma) G.
+Definition canon_rebuild (order : list N) (G : mgraph) : mgraph :=
+  LG (flat_map (fun v => match label G v with Some a => [(sigma_of order v, a)] | None => [] end) order)
+     (map (fun e : N * N * Z => let '(a, b, x) := e in (sigma_of order a, sigma_of order b, x)) (gedges G)).
+Definition canon_relabel (order : list N) (G : mgraph) : mgraph := relabel (sigma_of order) G.
 
 (** {data[aam_key]: n for n, data in G.nodes(data=True) if data.get(aam_key, 0) > 0}
     as an association list; a later node with the same atom map replaces the earlier value *)
@@ -87,15 +121,35 @@ Definition remap_graph (H : mgraph) (pairs : list (N * N)) : option mgraph :=
   | _ => Some (nx_relabel (apply_map (remap_mapping pairs)) H)
   end.
 
-(** canonicalise: (canonical reactant graph, mapping_pairs, canonical product graph), both graphs after
-    sync_atom_map_with_index ([set_amap], C01);  None = remap_graph raised ValueError (no shared atom map) *)
-Definition canonicalise (sigma : list (N * N)) (G H : mgraph) : option (mgraph * list (N * N) * mgraph) :=
-  let Gc := canon_graph sigma G in
+(** product atoms without a reactant partner (repair 8092e28): sorted(n for n in H if n not in paired), numbered
+    from len(canonical reactant graph) + 1 *)
+Fixpoint ninsert (k : N) (l : list N) : list N :=
+  match l with
+  | [] => [k]
+  | x :: r => if N.leb k x then k :: l else x :: ninsert k r
+  end.
+Definition nsort (l : list N) : list N := fold_right ninsert [] l.
+Definition extra_nodes (H : mgraph) (pairs : list (N * N)) : list N :=
+  nsort (filter (fun n => negb (mem n (map snd pairs))) (node_ids H)).
+Definition extra_pairs (first : N) (extra : list N) : list (N * N) :=
+  combine (map (fun i => (first + N.of_nat i)%N) (seq 0 (length extra))) extra.
+Definition node_map_of (Gc H : mgraph) (pairs : list (N * N)) : list (N * N) :=
+  match pairs with
+  | [] => []
+  | _ => pairs ++ extra_pairs (N.of_nat (length (gnodes Gc)) + 1)%N (extra_nodes H pairs)
+  end.
+
+(** canonicalise, after the canonical reactant graph [Gc] is known: (canonical reactant graph, mapping_pairs,
+    canonical product graph), both graphs after sync_atom_map_with_index ([set_amap], C01);
+    None = remap_graph raised ValueError (no shared atom map) *)
+Definition canonicalise_with (Gc H : mgraph) : option (mgraph * list (N * N) * mgraph) :=
   let pairs := aam_pairs Gc H in
-  match remap_graph H pairs with
+  match remap_graph H (node_map_of Gc H pairs) with
   | None => None
   | Some Hc => Some (set_amap Gc, pairs, set_amap Hc)
   end.
+Definition canonicalise_wl (ranks : list (N * Z)) (G H : mgraph) := canonicalise_with (canon_rebuild (wl_order ranks G) G) H.
+Definition canonicalise_nauty (G H : mgraph) := canonicalise_with (canon_relabel (nauty_order G) G) H.
 
 (** * AAMValidator.smiles_check, graph level *)
 
@@ -117,14 +171,23 @@ Definition inode_dflt : inode := IN 0%N 0 0 None dflt_nattr dflt_nattr.
 Definition lbl (g : its) (n : N) : inode := match label g n with Some a => a | None => inode_dflt end.
 
 (** does a consistent assignment of the remaining pattern nodes exist?  ([ok] is lib/Mono.v's candidate
-    test: labels match, image unused, every edge / non-edge to an already assigned node corresponds) *)
+    test: labels match, image unused, every edge / non-edge to an already assigned node corresponds).
+    [existsb] / [&&] do not short-circuit under call-by-value [vm_compute]: the search branches with [if];
+    the label test is repeated in front of [ok] for the same reason (it is the first conjunct of [ok]). *)
+Fixpoint any {X : Type} (f : X -> bool) (l : list X) : bool :=
+  match l with
+  | [] => false
+  | x :: r => if f x then true else any f r
+  end.
 Fixpoint ext_any (P Hg : its) (ps : list N) (acc : list (N * N)) : bool :=
   match ps with
   | [] => true
   | p :: ps' =>
-      existsb (fun h => ok (lbl P) (lbl Hg) (LGraph.adj P) (LGraph.adj Hg) node_match edge_match true p h acc
-                        && ext_any P Hg ps' ((p, h) :: acc))
-              (node_ids Hg)
+      any (fun h => if node_match (lbl Hg h) (lbl P p)
+                    then if ok (lbl P) (lbl Hg) (LGraph.adj P) (LGraph.adj Hg) node_match edge_match true p h acc
+                         then ext_any P Hg ps' ((p, h) :: acc) else false
+                    else false)
+          (node_ids Hg)
   end.
 
 (** nx.is_isomorphic(G1, G2, node_match, edge_match): equal sizes and an induced, label-preserving embedding *)
@@ -151,15 +214,18 @@ Definition balancedb (G H : mgraph) : bool :=
 
 (** * run functions *)
 Definition tpairsN (l : list (N * N)) : tok := tlist (fun p : N * N => L [tN (fst p); tN (snd p)]) l.
-Definition run_canon (sigma : list (N * N)) (G H : mgraph) : tok :=
-  match canonicalise sigma G H with
+Definition tcanon (r : option (mgraph * list (N * N) * mgraph)) : tok :=
+  match r with
   | None => L [I (-1)]
   | Some (Gc, pairs, Hc) => L [tmgraph Gc; tpairsN pairs; tmgraph Hc]
   end.
+Definition run_canon_wl (ranks : list (N * Z)) (G H : mgraph) : tok := tcanon (canonicalise_wl ranks G H).
+Definition run_canon_nauty (G H : mgraph) : tok := tcanon (canonicalise_nauty G H).
 Definition run_valid (G1 H1 G2 H2 : mgraph) : tok :=
-  let I1 := its_construct G1 H1 in
-  let I2 := its_construct G2 H2 in
-  L [tbool (is_isomorphic (get_rc I1) (get_rc I2)); tbool (is_isomorphic I1 I2); tits (get_rc I1); tits (get_rc I2)].
+  L [tbool (smiles_check_rc G1 H1 G2 H2); tbool (smiles_check_its G1 H1 G2 H2);
+     tits (get_rc (its_construct G1 H1)); tits (get_rc (its_construct G2 H2))].
+Definition run_valid_rc (G1 H1 G2 H2 : mgraph) : tok :=
+  L [tbool (smiles_check_rc G1 H1 G2 H2); tits (get_rc (its_construct G1 H1)); tits (get_rc (its_construct G2 H2))].
 Definition run_balance (G H : mgraph) : tok :=
   L [tbool (balancedb G H);
      tset (fun e => L [tN e; I (el_count e G); I (el_count e H)]) (nodup N.eq_dec (elements_of G ++ elements_of H));
